@@ -95,10 +95,7 @@ def run(ctx, rep) -> None:
                 if not any(e.get("cls") == "InvalidWorkflowId" for e in c.effects if e.kind == "push"):
                     rep.check(len(cwp) == 1 and not cwp[0].get("loop"), "C17.R2", "CompleteWorkflow pushed with the fan-out", "exactly one CompleteWorkflow in the fan-out transaction", c.site[0], c.site[1], disc="cw-once")
                 break
-    f = prog.func("stabilize.handlers.workflow_control", "CancelWorkflowHandler._handle_with_retry.on_execution")
-    sel = [n for n in ast.walk(f.node) if isinstance(n, ast.Assign) and isinstance(n.value, ast.ListComp) and "top_level_stages()" in norm(n.value)]
-    ok = bool(sel) and norm(sel[0].value.generators[0].ifs[0]) == "not s.status.is_complete" if sel and sel[0].value.generators[0].ifs else False
-    rep.check(ok, "C17.R2", "every unfinished top-level stage is canceled", "[s for s in execution.top_level_stages() if not s.status.is_complete]", f.file, sel[0].lineno if sel else f.node.lineno, disc="selection")
+    # (the selection of the stages that get CancelStage is decided by R2b below: domain = all stages, filter = status only)
 
     # ---- R3 --------------------------------------------------------------------------------------
     cs = [p for p in infos if p.handler == "CancelStageHandler"]
@@ -158,3 +155,70 @@ def run(ctx, rep) -> None:
     st_call = [n for n in sw.body if isinstance(n, ast.Expr) and norm(n).startswith("self._start(")]
     ok = bool(g) and any(isinstance(s, ast.Return) for s in g[0].body) and bool(st_call) and g[0].lineno < st_call[0].lineno
     rep.check(ok, "C17.R5", "a canceled workflow is not started", "if execution.is_canceled: ... return before _start", "src/stabilize/handlers/start_workflow.py", g[0].lineno if g else sw.lineno, disc="start-guard")
+
+    # ---- R6: the wind-down chain is never cut ---------------------------------------------------------------------------------
+    # After the cancel the workflow is finished by messages only: the cancel's own CompleteWorkflow (re-queued until every stage
+    # has ended) and, for stages that get no CancelStage (synthetic children), the chain StartStage > StartTask > RunTask (guard) >
+    # CompleteTask(CANCELED) > CompleteStage. A handler of that chain that consumes its message without a continuation under a
+    # condition that is not a reviewed "moot" condition leaves a stage RUNNING / the workflow non-final for good.
+    from .c05 import consume_rule
+    rep.rule("C17.R6", "the handlers that finish a canceled workflow (CompleteWorkflow, CancelWorkflow, CancelStage, StartTask, CompleteTask, CompleteStage; StartStage in the thorough tier) consume a message without continuation only under "
+             "the reviewed conditions of the consume table (shared with C05.R6) - in particular never because `is_canceled` is set, and CompleteWorkflow never stops re-queuing while a stage is unfinished")
+    chain = frozenset({"CompleteWorkflowHandler", "CancelWorkflowHandler", "CancelStageHandler", "StartTaskHandler", "CompleteTaskHandler", "CompleteStageHandler", "StartStageHandler"})
+    n_paths, n_cons = consume_rule(ctx, rep, "C17.R6", chain)
+    rep.count(winddown_consume_paths=n_cons)
+    rep.floor("consume-only paths of the wind-down chain", n_cons, 8)
+
+    # ---- R2b: the fan-out reaches every unfinished stage -------------------------------------------------------------------
+    # CancelStage does not cascade to synthetic children, so the set CancelWorkflow iterates over must be ALL stages of the
+    # workflow filtered by status only, and the filter must let every non-completed status through.
+    from ..statuspred import comprehension_filter, status_set
+    cw = prog.cls("stabilize.handlers.workflow_control", "CancelWorkflowHandler")
+    found = 0
+    for mi in cw.methods.values():
+        for fn in [x for x in ast.walk(mi.node) if isinstance(x, (ast.FunctionDef, ast.AsyncFunctionDef))]:
+            from ..dom import parents as _parents
+            par = _parents(fn)
+            own_ctor = [c for c in ast.walk(fn) if isinstance(c, ast.Call) and norm(c.func).split(".")[-1] == "CancelStage"]
+            for ctor in own_ctor:
+                # nearest enclosing iteration: a for loop or a comprehension
+                cur, it = ctor, None
+                while id(cur) in par:
+                    cur = par[id(cur)]
+                    if isinstance(cur, ast.For):
+                        it = cur.iter
+                        break
+                    if isinstance(cur, (ast.ListComp, ast.GeneratorExp, ast.SetComp)) and len(cur.generators) == 1:
+                        it = cur.generators[0].iter
+                        break
+                    if isinstance(cur, (ast.FunctionDef, ast.AsyncFunctionDef)):
+                        break
+                if it is None:
+                    continue
+                loop = ctor
+                for _ in range(3):
+                    if not isinstance(it, ast.Name):
+                        break
+                    defs = [a for a in ast.walk(fn) if isinstance(a, ast.Assign) and len(a.targets) == 1 and norm(a.targets[0]) == it.id]
+                    if len(defs) != 1:
+                        raise AnalysisError(f"CancelWorkflow: `{it.id}` (the stages that get CancelStage) has {len(defs)} definitions")
+                    it = defs[0].value
+                found += 1
+                cf = comprehension_filter(it)
+                if cf is None:
+                    dom, flt, var = norm(it), None, None
+                else:
+                    g, flt = cf
+                    dom, var = norm(g.iter), norm(g.target)
+                dom_ok = dom in ("execution.stages", "list(execution.stages)", "execution.all_stages()")
+                W = frozenset(T.members) if flt is None else status_set(flt, f"{var}.status", T)
+                if W is None:
+                    rep.fail("C17.R2", "CancelWorkflow fan-out filter", f"`{norm(flt)}` is not a pure status predicate: stages can be left out of the fan-out for reasons other than being finished", mi.file, loop.lineno, disc="fanout-filter")
+                    continue
+                missing = sorted((frozenset(T.members) - COMPLETED) - W)
+                ok = dom_ok and not missing
+                rep.check(ok, "C17.R2", "CancelWorkflow pushes CancelStage for every unfinished stage of the workflow", f"iterates {dom} filtered to {sorted(W) if len(W) < 12 else 'all statuses'}" + ("" if ok else
+                          (f": only `{dom}` is covered - CancelStage does not cascade, so unfinished stages outside it (pre-declared before/after children) stay NOT_STARTED / RUNNING in a CANCELED workflow" if not dom_ok else "") +
+                          (f": stages in {missing} get no CancelStage" if missing else "")), mi.file, loop.lineno, disc="fanout-all-stages")
+    if not found:
+        raise AnalysisError("CancelWorkflowHandler: the loop that pushes CancelStage was not found")
